@@ -249,7 +249,7 @@ REPLAYS["C17"] = checks_fmt.replay_doc
 REPLAYS["C18"] = checks_fmt.replay_doc
 from harness import checks_plan   # noqa: E402
 CHECKS["C16"] = checks_plan.check_c16
-REPLAYS["C16"] = replay_dynamic
+REPLAYS["C16"] = checks_plan.replay_c16
 from harness import checks_multi   # noqa: E402
 CHECKS["C19"] = checks_multi.check_c19
 REPLAYS["C19"] = replay_dynamic
